@@ -3,6 +3,7 @@ package main
 import (
 	"fmt"
 
+	btapb "cloud.google.com/go/bigtable/admin/apiv2/adminpb"
 	btpb "cloud.google.com/go/bigtable/apiv2/bigtablepb"
 
 	"verif/bt/drive"
@@ -16,7 +17,7 @@ func init() { register("C12", "exploration", runC12) }
 var c12Ctx = gen.FilterCtx{Keys: gen.Keys, Fams: gen.Fams, Quals: gen.Quals, Vals: gen.Vals, TSs: []int64{0, 1000, 2000, 3000}, MaxCells: 6}
 
 func runC12(run *common.Run) {
-	run.Rule = "case = one program on one engine: 15-40 requests over the colliding key universe, two thirds CheckAndMutateRow (predicate = none or a generated filter tree to depth 3 incl. strip-everything, zero limits and erroring ones; true/false lists = generated mutation lists incl. empty lists and lists with an invalid k-th element), the rest plain MutateRow to move the row state. Before each request the row is read unfiltered and with filter=predicate; predicate_matched is compared with the independent evaluator AND with that filtered read, the row afterwards with the model applying exactly the selected list, and the whole table is re-read. Non-trivial = program saw both branches taken, a rejected request and a predicate that matched the row but left no cell; distinct by program x engine."
+	run.Rule = "case = one program on one engine: 15-40 requests over the colliding key universe, two thirds CheckAndMutateRow (predicate = none or a generated filter tree to depth 3 incl. strip-everything, zero limits and erroring ones; true/false lists = generated mutation lists incl. empty lists and lists with an invalid k-th element), the rest plain MutateRow to move the row state, plus drops and re-creations of one family (rows left without cells by a drop). Before each request the row is read unfiltered and with filter=predicate; predicate_matched is compared with the independent evaluator AND with that filtered read, the row afterwards with the model applying exactly the selected list, and the whole table is re-read. Non-trivial = program saw both branches taken, a rejected request and a predicate that matched the row but left no cell; distinct by program x engine."
 	run.Assumptions = []string{"filter evaluator and data model as in C05/C01", "row-sample predicates admit either outcome", "an invalid predicate argument that the semantics never apply to a cell may or may not be rejected"}
 	j := common.NewJournal("C12")
 	nprog := run.N(600, 8000)
@@ -40,8 +41,17 @@ func c12Program(run *common.Run, prog int, engine string, idx int) {
 		return
 	}
 	defer srv.Close(true)
-	table := drive.MustTable(srv.Admin, "t", gen.Fams...)
-	m := model.NewTable(gen.Fams...)
+	// family "g" is dropped and re-created during the program: rows can be left without cells by a family drop
+	table := drive.MustTable(srv.Admin, "t", append(append([]string{}, gen.Fams...), "g")...)
+	m := model.NewTable(append(append([]string{}, gen.Fams...), "g")...)
+	remap := func(ms []model.Mut) []model.Mut {
+		for i := range ms {
+			if ms[i].Fam == "f2" && r.Chance(1, 2) {
+				ms[i].Fam = "g"
+			}
+		}
+		return ms
+	}
 	o := gen.Opts{InvalidPct: 5}
 	var steps []string
 	fail := func(what string) {
@@ -52,8 +62,34 @@ func c12Program(run *common.Run, prog int, engine string, idx int) {
 	n := r.Range(15, 40)
 	for s := 0; s < n; s++ {
 		key := common.Pick(r, keys)
+		if r.Chance(1, 10) {
+			// drop or re-create family g
+			_, has := m.Families["g"]
+			mod := &btapb.ModifyColumnFamiliesRequest_Modification{Id: "g", Mod: &btapb.ModifyColumnFamiliesRequest_Modification_Create{Create: &btapb.ColumnFamily{}}}
+			if has {
+				mod = &btapb.ModifyColumnFamiliesRequest_Modification{Id: "g", Mod: &btapb.ModifyColumnFamiliesRequest_Modification_Drop{Drop: true}}
+			}
+			ctx, cancel := drive.Ctx()
+			_, err := srv.Admin.ModifyColumnFamilies(ctx, &btapb.ModifyColumnFamiliesRequest{Name: table, Modifications: []*btapb.ModifyColumnFamiliesRequest_Modification{mod}})
+			cancel()
+			steps = append(steps, fmt.Sprintf("ModifyColumnFamilies(g, drop=%v) -> %v", has, err))
+			if err != nil {
+				fail("ModifyColumnFamilies failed: " + err.Error())
+				return
+			}
+			if has {
+				delete(m.Families, "g")
+				for k, row := range m.Rows {
+					delete(row, "g")
+					m.Commit(k, row)
+				}
+			} else {
+				m.Families["g"] = nil
+			}
+			continue
+		}
 		if r.Chance(1, 3) {
-			muts := gen.Mutations(r, gen.Opts{}, 1, 4)
+			muts := remap(gen.Mutations(r, gen.Opts{}, 1, 4))
 			v, nr := m.Apply(key, muts, clock)
 			st := drive.MutateRow(srv.Data, table, key, muts)
 			steps = append(steps, fmt.Sprintf("MutateRow(%q,%s) -> %s", key, model.MutsString(muts), st))
@@ -73,8 +109,8 @@ func c12Program(run *common.Run, prog int, engine string, idx int) {
 				pred = gen.Tree(r, c12Ctx, 3, 4)
 			}
 		}
-		tm := gen.Mutations(r, o, 0, 3)
-		fm := gen.Mutations(r, o, 0, 3)
+		tm := remap(gen.Mutations(r, o, 0, 3))
+		fm := remap(gen.Mutations(r, o, 0, 3))
 		// the row as served right now (input of the evaluator; gives the family order)
 		before := drive.ReadRow(srv.Data, table, key)
 		if !before.OK() {
